@@ -5,7 +5,7 @@ From FrameModel Require Import PB.Cnf.
 Import ListNotations.
 
 (* for i: for j > i: add_clause([-lst[i], -lst[j]]) *)
-Fixpoint quadratic (l : list lit) : cnf :=
+Fixpoint quadratic (l : list literal) : cnf :=
   match l with
   | [] => []
   | x :: r => map (fun y => [neg x; neg y]) r ++ quadratic r
@@ -15,12 +15,12 @@ Fixpoint quadratic (l : list lit) : cnf :=
    [aux] is the manager's auxcount; the result is the clauses in the order they
    are added and the new auxcount.  Fuel: the list gets shorter by k - 2 >= 1 in
    every recursive call, [List.length l] is enough; [None] = out of fuel. *)
-Fixpoint heule (fuel : nat) (k : nat) (aux : nat) (l : list lit) : option (cnf * nat) :=
+Fixpoint heule (fuel : nat) (k : nat) (aux : nat) (l : list literal) : option (cnf * nat) :=
   if List.length l <=? k then Some (quadratic l, aux)
   else match fuel with
        | 0 => None
        | S f =>
-           let fresh : lit := (Aux (S aux), true) in
+           let fresh : literal := (Aux (S aux), true) in
            let h1 := firstn (k - 1) l ++ [fresh] in
            let h2 := neg fresh :: skipn (k - 1) l in     (* lst[k-2:] with [0] := -fresh *)
            match heule f k (S aux) h2 with
@@ -29,5 +29,5 @@ Fixpoint heule (fuel : nat) (k : nat) (aux : nat) (l : list lit) : option (cnf *
            end
        end.
 
-Definition count_true (e : valuation) (l : list lit) : nat := List.length (filter (lit_val e) l).
-Definition at_most_one (e : valuation) (l : list lit) : Prop := count_true e l <= 1.
+Definition count_true (e : valuation) (l : list literal) : nat := List.length (filter (lit_val e) l).
+Definition at_most_one (e : valuation) (l : list literal) : Prop := count_true e l <= 1.
